@@ -7,7 +7,9 @@ TECHNIQUE = "Coq theorem over a registration table regenerated from cmd/*.go by 
 RULE = ("one case: the complete table of (command, option, DefValue, current value, bound-variable identity) read from "
         "cmd.RootCmd at run time after all init() functions; compared row by row with the table the translator generated from "
         "the source, over which the Coq theorems are stated; non-trivial = the table has > 200 options; the second "
-        "distinct case re-reads the table and then runs the root command's pre-run hook and re-reads the global options")
+        "distinct case re-reads the table and then runs the root command's pre-run hook and re-reads the global options; the "
+        "third gives every option of every command its documented default explicitly through the command's own ParseFlags "
+        "(--name v, --name=v, -s v) and reads back value, left-over words and error")
 TRUSTED = ["tools/gotrans (go/ast + go/types): extraction of the registration table from cmd/*.go, cross-checked against the run-time table",
            "pflag: XVar(&v, ..., default, ...) assigns default to v at registration and records DefValue (modelled in Model/Flags.v)"]
 ASSUMPTIONS = ["a command reads its option through the bound variable", "cobra/pflag parse only the options given on the command line"]
@@ -19,7 +21,8 @@ LEVEL_NOTE = "Trusted: translator, pflag registration semantics as modelled, Coq
 
 def gen(rng, tier):
     return [{"sx": sx({"op": Sym("flags")}), "meta": {"op": "flags"}},
-            {"sx": sx({"op": Sym("flags"), "after": Sym("prerun")}), "meta": {"op": "flags-then-root-prerun"}}]
+            {"sx": sx({"op": Sym("flags"), "after": Sym("prerun")}), "meta": {"op": "flags-then-root-prerun"}},
+            {"sx": sx({"op": Sym("parse")}), "meta": {"op": "parse-every-default-explicitly"}}]
 SEARCH = False   # the input space is the single run-time table
 
 import re, shutil
